@@ -79,6 +79,17 @@ func (ex *Exec) doCall(st *State, fr *Frame, ins ssa.Instruction, c *ssa.CallCom
 			k0(st, rets)
 		}
 	}
+	if base := ex.retSite(st, fr, ins, c); base != "" {
+		k1 := k
+		k = func(st *State, rets []Val) {
+			for i, r := range rets {
+				if r.Kind == VTerm {
+					st.setHeap(fmt.Sprintf("%s.%d", base, i), r.T)
+				}
+			}
+			k1(st, rets)
+		}
+	}
 	var args []Val
 	if c.IsInvoke() {
 		args = append(args, ex.get(st, c.Value))
@@ -349,6 +360,7 @@ func (ex *Exec) applyContract(st *State, fr *Frame, ct *Contract, key string, ar
 		}
 	}
 	ex.pendingBinds, ex.pendingFn = nil, nil
+	ex.linkPureArgs(st, fr, ct, key, args)
 	old := st.snapshot()
 	env := &Env{ex: ex, st: st, old: old, vars: vars, fr: fr, pkg: ex.pkgOfKey(key), calleeCtx: true, siteFn: key}
 	for _, r := range ct.Requires {
@@ -379,6 +391,11 @@ func (ex *Exec) applyContract(st *State, fr *Frame, ct *Contract, key string, ar
 		ex.endPath(st, "exit:"+short)
 		st.dead = true
 		return nil
+	}
+	coverLabel := ""
+	if ex.callCovers && fr.depth == 0 {
+		coverLabel = fmt.Sprintf("%s.%d", short, ord)
+		ex.cover(st, "callpre:"+coverLabel)
 	}
 	// havoc the frame
 	ex.curFr = fr
@@ -463,6 +480,9 @@ func (ex *Exec) applyContract(st *State, fr *Frame, ct *Contract, key string, ar
 		}
 	}
 	for _, e := range ct.Ensures {
+		if strings.Contains(e.Text, "lastret(") {
+			continue // about the callee's own call sites: internal to its proof
+		}
 		// callee postconditions are assumed whatever property they are tagged
 		// with: they are discharged in the callee's own verification
 		t, err := ex.evalSpecBool(e.Expr, post)
@@ -475,6 +495,11 @@ func (ex *Exec) applyContract(st *State, fr *Frame, ct *Contract, key string, ar
 		}
 		st.assume(t)
 	}
+	defer func() {
+		if coverLabel != "" {
+			ex.cover(st, "callpost:"+coverLabel)
+		}
+	}()
 	// freshly allocated results: distinct from everything allocated so far
 	for _, fc := range ct.Fresh {
 		v, err := ex.evalSpec(fc.Expr, post)
@@ -1952,4 +1977,232 @@ func (ex *Exec) errSite(st *State, fr *Frame, ins ssa.Instruction, c *ssa.CallCo
 		}
 	}
 	return ""
+}
+
+// linkPureArgs: a callee that takes a function-valued parameter declared
+// `pure` speaks about it through apply(f, k, x). When the argument is a method
+// value recv.m whose method m has a contract with `modifies nothing`, the
+// method's postconditions are made available for every argument x:
+//   forall x. requires_m(recv, x) ==> ensures_m(recv, x, apply(f, *, x))
+// (the obligations themselves are discharged in m's own verification).
+func (ex *Exec) linkPureArgs(st *State, fr *Frame, ct *Contract, key string, args []Val) {
+	if len(ct.Pure) == 0 {
+		return
+	}
+	names := append([]string{}, ct.Params...)
+	if f := ex.findFunc(key); f != nil {
+		for j, p := range f.Params {
+			if j >= len(names) {
+				names = append(names, p.Name())
+			} else if names[j] == "" || names[j] == "_" {
+				names[j] = p.Name()
+			}
+		}
+	}
+	for i, a := range args {
+		if i >= len(names) || !ct.Pure[names[i]] || a.Kind != VClosure || a.Fn == nil {
+			continue
+		}
+		if !strings.HasSuffix(a.Fn.Name(), "$bound") || len(a.Binds) != 1 || a.Binds[0].Kind != VTerm {
+			continue
+		}
+		m := ex.boundTarget(a.Fn)
+		if m == nil {
+			continue
+		}
+		mc := ex.db.Contracts[m.String()]
+		if mc == nil || !mc.HasMod || len(mc.Modifies) != 0 || len(m.Params) != 2 {
+			continue
+		}
+		ft, ok := ex.closureTerm(st, a)
+		if !ok {
+			continue
+		}
+		dk := "purelink:" + ft.S
+		if st.decl[dk] {
+			continue
+		}
+		st.decl[dk] = true
+		sig := m.Signature
+		pty := m.Params[1].Type()
+		if sortOf(pty) != SortInt {
+			continue
+		}
+		q := st.fresh("purearg", SortInt)
+		qv := TV(q, pty)
+		vars := map[string]Val{}
+		pn := func(j int) string {
+			if j < len(mc.Params) && mc.Params[j] != "" {
+				return mc.Params[j]
+			}
+			return m.Params[j].Name()
+		}
+		vars[pn(0)] = a.Binds[0]
+		vars[pn(1)] = qv
+		for k := 0; k < sig.Results().Len(); k++ {
+			rt := sig.Results().At(k).Type()
+			rv := TV(ex.applyTerm(st, ft, k, []Val{qv}, sortOf(rt)), rt)
+			if k < len(mc.Results) {
+				vars[mc.Results[k]] = rv
+			}
+			vars[fmt.Sprintf("result%d", k)] = rv
+		}
+		snap := st.snapshot()
+		env := &Env{ex: ex, st: st, old: snap, vars: vars, fr: fr, pkg: ex.pkgOfKey(m.String()), calleeCtx: true, siteFn: m.String()}
+		guard := []Term{}
+		okAll := true
+		for _, r := range mc.Requires {
+			t, err := ex.evalSpecBool(r.Expr, env)
+			if err != nil {
+				okAll = false
+				break
+			}
+			guard = append(guard, t)
+		}
+		if !okAll {
+			continue
+		}
+		last := sig.Results().Len() - 1
+		if last < 0 {
+			continue
+		}
+		pat := ex.applyTerm(st, ft, last, []Val{qv}, sortOf(sig.Results().At(last).Type()))
+		for _, e := range mc.Ensures {
+			if strings.Contains(e.Text, "old(") || strings.Contains(e.Text, "$") || strings.Contains(e.Text, "calls(") || strings.Contains(e.Text, "lasterr(") {
+				continue
+			}
+			t, err := ex.evalSpecBool(e.Expr, env)
+			if err != nil {
+				continue
+			}
+			body := t
+			if len(guard) > 0 {
+				body = Implies(And(guard...), t)
+			}
+			txt := fmt.Sprintf("(assert (forall ((purex Int)) (! %s :pattern (%s))))", body.S, pat.S)
+			txt = strings.ReplaceAll(txt, q.S, "purex")
+			st.emit(txt)
+		}
+		ex.usedContracts[m.String()] = true
+	}
+}
+
+var lastretRe = regexp.MustCompile(`lastret\("([^"]+)",\s*(\d+),\s*(\d+)\)`)
+
+// retSites: call sites whose results the contract mentions through
+// lastret("callee", k, i): result i of the latest execution of the k-th call
+// site of callee (by source order) in the function under verification.
+func (ex *Exec) retSites() map[string]bool {
+	c := ex.topC
+	if c == nil {
+		return nil
+	}
+	if ex.retSiteCache == nil {
+		ex.retSiteCache = map[*Contract]map[string]bool{}
+	}
+	if m, ok := ex.retSiteCache[c]; ok {
+		return m
+	}
+	out := map[string]bool{}
+	add := func(text string) {
+		for _, m := range lastretRe.FindAllStringSubmatch(text, -1) {
+			out[m[1]+"#"+m[2]] = true
+		}
+	}
+	for _, cl := range c.Requires {
+		add(cl.Text)
+	}
+	for _, cl := range c.Ensures {
+		add(cl.Text)
+	}
+	for _, cl := range c.CallReqs {
+		add(cl.Text)
+	}
+	for _, l := range c.Loops {
+		for _, cl := range l.Invariants {
+			add(cl.Text)
+		}
+	}
+	ex.retSiteCache[c] = out
+	return out
+}
+
+func siteRetHeap(fnKey, name string, k int) string {
+	return fmt.Sprintf("g|$siteret:%s:%s#%d", fnKey, name, k)
+}
+
+func (ex *Exec) matchSite(fr *Frame, st *State, ins ssa.Instruction, c *ssa.CallCommon, sites map[string]bool) (string, int) {
+	if len(sites) == 0 || ex.top == nil {
+		return "", 0
+	}
+	prefix, ok := ex.closurePrefix(fr.fn)
+	if !ok {
+		return "", 0
+	}
+	key, f := ex.calleeKey(st, c)
+	if f == nil && !c.IsInvoke() {
+		if rf := resolveClosureVar(c.Value); rf != nil {
+			key = rf.String()
+		}
+	}
+	ord := ex.staticOrdinal(fr.fn, ins, key)
+	for _, t := range sortedKeys(sites) {
+		i := strings.LastIndex(t, "#")
+		name, k := t[:i], t[i+1:]
+		if k != fmt.Sprint(ord) || !strings.HasPrefix(name, prefix) {
+			continue
+		}
+		bare := name[len(prefix):]
+		if strings.Contains(bare, ":") {
+			continue
+		}
+		short := contractShort(key)
+		if bare == short || bare == key || strings.HasSuffix(key, "."+bare) || strings.HasSuffix(key, ")."+bare) {
+			return name, ord
+		}
+	}
+	return "", 0
+}
+
+func (ex *Exec) retSite(st *State, fr *Frame, ins ssa.Instruction, c *ssa.CallCommon) string {
+	name, ord := ex.matchSite(fr, st, ins, c, ex.retSites())
+	if name == "" {
+		return ""
+	}
+	return siteRetHeap(ex.top.String(), name, ord)
+}
+
+// siteResultType finds the static type of result i of the k-th call site of
+// name in the function under verification.
+func (ex *Exec) siteResultType(name string, k, i int) types.Type {
+	var found types.Type
+	var visit func(fn *ssa.Function)
+	visit = func(fn *ssa.Function) {
+		fr := &Frame{fn: fn}
+		for _, b := range fn.Blocks {
+			for _, ins := range b.Instrs {
+				var cc *ssa.CallCommon
+				switch x := ins.(type) {
+				case *ssa.Call:
+					cc = &x.Call
+				case *ssa.Defer:
+					cc = &x.Call
+				}
+				if cc == nil {
+					continue
+				}
+				if n, ord := ex.matchSite(fr, nil, ins, cc, map[string]bool{name + "#" + fmt.Sprint(k): true}); n != "" && ord == k {
+					res := cc.Signature().Results()
+					if i < res.Len() {
+						found = res.At(i).Type()
+					}
+				}
+			}
+		}
+		for _, af := range fn.AnonFuncs {
+			visit(af)
+		}
+	}
+	visit(ex.top)
+	return found
 }
